@@ -15,7 +15,7 @@ RULE = ('Inputs: small generated documents of every selectable map (4010 -> 997,
         'whenever every copied value fits the acknowledgement\'s own element definitions. non-trivial = distinct acknowledgements containing >=1 AK4/IK4 with an echoed value.')
 ASSUMPTIONS = ['(d) acceptance is required only when the values copied from the input (control numbers, ids, echoed data) fit the 997/999 element definitions; otherwise only "no exception, no map-not-found"',
                'inputs for which validation itself does not complete are C07\'s business']
-REQUIRED_COUNTERS = ['cli:invocations', 'cli:acks-compared', 'inputs:envelope-soup', 'acks', 'acks:997', 'acks:999', 'acks-with-echo', 'echo-with-ack-delimiter', 'reread', 'revalidated', 'revalidated:accepted']
+REQUIRED_COUNTERS = ['inputs:fa-group-first', 'cli:invocations', 'cli:acks-compared', 'inputs:envelope-soup', 'acks', 'acks:997', 'acks:999', 'acks-with-echo', 'echo-with-ack-delimiter', 'reread', 'revalidated', 'revalidated:accepted']
 MIN_CASES = {'quick': 500, 'thorough': 15000}
 WATCHDOG_S = {'quick': 1200, 'thorough': 7200}
 
@@ -49,6 +49,10 @@ def check(ctx, text, res, case, sigs):
             ctx.viol('ack:extra-elements:%s:%s' % (kind, s), 'a segment of the acknowledgement has more elements than its definition (echoed data added elements)', case,
                      {'segment': [s] + e, 'ack': ack[:1500]})
             break
+    why = ref_ack.shape_error(a.segs)
+    if why and not bad_ids:
+        ctx.viol('ack:shape:%s' % kind, 'the segments of the acknowledgement do not spell the 997 / 999 grammar (something written outside its ST..SE, or out of order)', case,
+                 {'why': why, 'ids': [s_ for s_, e_ in a.segs][:40]})
     nsets_tree = sum(len(g['sets']) for i in res.shape for g in i['groups'])
     nak2 = sum(1 for s, e in a.segs if s == 'AK2')
     nak5 = sum(1 for s, e in a.segs if s in ('AK5', 'IK5'))
@@ -121,6 +125,28 @@ def _ok_n(v, mn, mx):
     return v != '' and all(c in '0123456789' for c in v) and mn <= len(v) <= mx
 
 
+_AK101 = []
+
+
+def _ak101_codes():
+    if not _AK101:
+        from vlib import refmap
+        codes = set()
+        first = True
+        for fn in ('997.4010.xml', '999.5010.xml', '999.5010X231.A1.xml'):
+            try:
+                root = refmap.load(fn)
+            except Exception:
+                continue
+            for nd in refmap.walk(root):
+                if nd.kind == 'seg' and nd.id == 'AK1' and nd.children:
+                    c = set(nd.children[0].codes or ())
+                    codes = c if first else (codes & c)
+                    first = False
+        _AK101.append(codes)
+    return _AK101[0]
+
+
 def fits_definitions(a, text):
     """conservative: True only when every value the acknowledgement copies from the input is plainly inside its 997/999 definition"""
     std_seg = {'1', '2', '3', '4', '5', '6', '7', '8', 'I4', 'I6', 'I7', 'I8', 'I9'}
@@ -135,6 +161,8 @@ def fits_definitions(a, text):
         elif s == 'AK1':
             if not (_ok_an(g(1), 2, 2) and g(1).isalnum() and g(1).isupper() and _ok_n(g(2), 1, 9)):
                 return False
+            if g(1) not in _ak101_codes():
+                return False            # e.g. FA: a group of acknowledgements that was acknowledged - AK101's own code list does not hold it
             if len(e) >= 3 and not _ok_an(g(3), 1, 12):
                 return False
         elif s == 'AK2':
@@ -302,7 +330,7 @@ def run(ctx):
             continue
         if len(doc.recs) > 300:
             continue
-        fam = rng.choice(['faults', 'faults', 'hostile', 'hostile', 'many', 'missing-ctl', 'mutated', 'soup'])
+        fam = rng.choice(['faults', 'faults', 'hostile', 'hostile', 'many', 'missing-ctl', 'mutated', 'soup', 'fa-group-first'])
         terms = ('~', '*', ':')
         kinds = [fam]
         if fam == 'faults':
@@ -327,6 +355,30 @@ def run(ctx):
                 if r.node.id == 'GS' and rng.random() < 0.3:
                     r.vals[1] = rng.choice(['', 'A', 'SENDER WITH BLANK'])
         text = doc.text(terms[0], terms[1], terms[2], '\n' if terms[0] != '\n' else '')
+        if fam == 'fa-group-first':
+            # a functional group of acknowledgements (GS01 = FA) in front of the ordinary group(s) of the same interchange: the validator answers
+            # the file as a whole, so the FA group's sets appear in the acknowledgement too
+            fa = [x for x in gen_doc.index_entries() if x['fic'] == 'FA' and x['icvn'] == e['icvn']]
+            try:
+                fdoc = gen_doc.gen_document(fa[rng.randrange(len(fa))], rng.randrange(1 << 30), n_st=rng.choice([1, 2]), n_gs=1, n_isa=1, charset='E', fill=0.3, opt_prob=0.5, maxrep=1)
+            except (gen_doc.GenFailed, ValueError):
+                fdoc = None
+            if fdoc is not None:
+                la = [x for x in fdoc.text().split('~\n') if x]
+                lb = [x for x in text.split('~\n') if x]
+                ga = la[1:-1]                                   # GS .. GE of the FA document
+                if lb and lb[0].startswith('ISA*') and lb[-1].startswith('IEA*') and ga and ga[0].startswith('GS*FA'):
+                    g_ = ga[0].split('*')
+                    g_[6] = '77' + g_[6][:5]                     # its own group control number
+                    ga[0] = '*'.join(g_)
+                    ga[-1] = '*'.join(ga[-1].split('*')[:2] + [g_[6]])
+                    iea = lb[-1].split('*')
+                    try:
+                        iea[1] = str(int(iea[1]) + 1)
+                    except ValueError:
+                        pass
+                    text = '~\n'.join([lb[0]] + ga + lb[1:-1] + ['*'.join(iea)]) + '~\n'
+                    ctx.count('inputs:fa-group-first')
         if fam == 'soup':
             # header, trailer and body segments in arbitrary order behind a well-formed ISA: whatever the tree looks like, the acknowledgement must be whole
             text = mutate.envelope_soup(rng, e['icvn'])
